@@ -1216,6 +1216,7 @@ struct Scenario {
     path_defect: u8,    // 0 none, 1 forged hop signature, 2 self-hop, 3 misdirected, 4 broken
     with_gt: bool,
     pre_dt: Option<u64>, // an extra block between block 2 and the candidate (varies the parent's burn fee)
+    carrier: u8,         // type of work transaction 0: 0 Normal, 1 the GoldenTicket transaction itself, 2 BlockStake
 }
 
 async fn run_gate_scenario(ctx: &mut Ctx, rng: &mut Rng, sc: &Scenario, keys: &Keys, cases: &mut Vec<String>, case: usize) {
@@ -1292,6 +1293,16 @@ async fn run_gate_scenario(ctx: &mut Ctx, rng: &mut Rng, sc: &Scenario, keys: &K
             // distinct timestamps: the tx signature does not cover (block_id, tx_ordinal) of the inputs
             make_tx(&[s.clone()], &[(keys.v[sender].0, s.amount - fee)], &keys.v[sender].1, ts3.wrapping_add(j as u64))
         };
+        if j == 0 && sc.carrier != 0 {
+            // the fee-paying, routed transaction is not a Normal one: re-type and re-sign before routing
+            if sc.carrier == 1 {
+                tx.transaction_type = TransactionType::GoldenTicket;
+                tx.data = mine_golden_ticket(b2.hash, b2.difficulty, keys.v[4].0, case as u64).serialize_for_net();
+            } else {
+                tx.transaction_type = TransactionType::BlockStake;
+            }
+            tx.sign(&keys.v[sender].1);
+        }
         let defect_here = sc.path_defect != 0 && j == 0;
         let mut from = sender;
         for (k, &to) in route.iter().enumerate() {
@@ -1322,7 +1333,13 @@ async fn run_gate_scenario(ctx: &mut Ctx, rng: &mut Rng, sc: &Scenario, keys: &K
     }
     let relay = if case % 2 == 0 { 4 } else { 3 };
     let gt = if sc.with_gt { Some((&keys.v[4].0, &keys.v[relay].0, &keys.v[relay].1, case as u64)) } else { None };
-    let b3 = match make_block_gt(&node, b2.hash, ts3, txs, gt).await {
+    let built = if sc.carrier == 1 {
+        let gttx = txs.remove(0);
+        make_block_with_gttx(&node, b2.hash, ts3, txs, gttx).await
+    } else {
+        make_block_gt(&node, b2.hash, ts3, txs, gt).await
+    };
+    let b3 = match built {
         Ok(b) => b,
         Err(e) => {
             ctx.summary.oracle_failure(case, &format!("vacuity guard: gate candidate not built: {}", e), "{\"part\":\"gate\",\"setup\":\"candidate-failed\"}");
@@ -1346,8 +1363,8 @@ async fn run_gate_scenario(ctx: &mut Ctx, rng: &mut Rng, sc: &Scenario, keys: &K
         .map(|(t, _)| t.total_work_for_me)
         .sum();
     let desc = format!(
-        "{{\"part\":\"gate\",\"heartbeat\":{},\"parent_burnfee\":{},\"parent_ts\":{},\"candidate_ts\":{},\"work_needed\":{},\"work_needed_by_implementation\":{},\"total_work\":{},\"hops\":{},\"work_txs\":{},\"variant\":{},\"path_defect\":{},\"golden_ticket\":{},\"add_block\":{},\"work_from_invalid_paths\":{}}}",
-        sc.hb, b2.burnfee, ts2, ts3, needed, needed_impl, total_work, sc.hops, n_tx, sc.variant, sc.path_defect, sc.with_gt,
+        "{{\"part\":\"gate\",\"heartbeat\":{},\"parent_burnfee\":{},\"parent_ts\":{},\"candidate_ts\":{},\"work_needed\":{},\"work_needed_by_implementation\":{},\"total_work\":{},\"hops\":{},\"work_txs\":{},\"variant\":{},\"path_defect\":{},\"work_transaction_0_type\":{},\"golden_ticket\":{},\"add_block\":{},\"work_from_invalid_paths\":{}}}",
+        sc.hb, b2.burnfee, ts2, ts3, needed, needed_impl, total_work, sc.hops, n_tx, sc.variant, sc.path_defect, jstr(["Normal", "GoldenTicket", "BlockStake"][sc.carrier as usize]), sc.with_gt || sc.carrier == 1,
         jstr(&format!("{:?}", class)), work_from_invalid
     );
     // ---- direct oracle
@@ -1373,13 +1390,21 @@ async fn run_gate_scenario(ctx: &mut Ctx, rng: &mut Rng, sc: &Scenario, keys: &K
     }
     if accepted && total_work.saturating_sub(work_from_invalid) < needed {
         // the requirement is met only thanks to paths that are not cryptographically valid / are self-hops
-        ctx.summary.known_hit(
-            "invalid-path-work-accepted",
+        // (before fix ff03c2c this was finding invalid-path-work-accepted; now any occurrence is a violation)
+        let bad: Vec<String> = b3
+            .transactions
+            .iter()
+            .zip(invalid_paths.iter())
+            .filter(|(t, inv)| **inv && t.total_work_for_me > 0)
+            .map(|(t, _)| format!("{:?} transaction, work {}, path {}", t.transaction_type, t.total_work_for_me, abs_tx(t, t.total_fees, keys)))
+            .collect();
+        ctx.summary.oracle_failure(
             case,
             &format!(
-                "block accepted although only {} of its routing work {} comes through valid paths (requirement {}): a transaction whose validate_routing_path() is false still counts (Block::validate discards the per-transaction verdict)",
-                total_work - work_from_invalid, total_work, needed
+                "block accepted although only {} of its routing work {} comes through cryptographically valid paths (requirement {}): counted work of transactions whose validate_routing_path() is false (forged hop signature / self-hop): {:?}",
+                total_work - work_from_invalid, total_work, needed, bad
             ),
+            &desc,
         );
     }
     if !accepted && sc.path_defect == 0 && total_work >= needed && class != AddClass::Panicked {
@@ -1392,6 +1417,12 @@ async fn run_gate_scenario(ctx: &mut Ctx, rng: &mut Rng, sc: &Scenario, keys: &K
     ctx.summary.count("gate.variant", &format!("{:+}", sc.variant.signum()));
     ctx.summary.count("gate.result", &format!("{:?}", class));
     ctx.summary.count("gate.defect", &format!("{}", sc.path_defect));
+    if sc.carrier != 0 {
+        ctx.summary.count(
+            "gate.non_normal_carrier",
+            &format!("{}:{}:{:?}", ["Normal", "GoldenTicket", "BlockStake"][sc.carrier as usize], if sc.path_defect == 0 { "valid-path" } else { "invalid-path" }, class),
+        );
+    }
     ctx.summary.count("gate.hops", &format!("{}", sc.hops));
     ctx.nontrivial(format!("gate/{}", desc));
     // ---- model case: block total work from the abstract transactions, gate verdict
@@ -1867,6 +1898,95 @@ async fn run_payout_scenario(ctx: &mut Ctx, rng: &mut Rng, keys: &Keys, cases: &
     produced
 }
 
+/// chains longer than 2 * genesis_period + 1 blocks (block 1 purged): the fee transaction of a
+/// golden-ticket block must still be checked — tampered re-signed clones must be rejected
+async fn run_long_chain_scenario(ctx: &mut Ctx, rng: &mut Rng, keys: &Keys, gp: u64, case: usize) {
+    let hb = 100u64;
+    let params = Params { genesis_period: gp, heartbeat: hb, ..Params::default() };
+    let mut node = Node::new(&params, 1);
+    let creator = 0usize;
+    let sender = 1usize;
+    let g = make_genesis(&node, 9_000_000, &[(keys.v[sender].0, 900_000_000_000u64)]).await.unwrap();
+    if node.add_block(g.clone()).await != AddClass::OnChain {
+        ctx.summary.oracle_failure(case, "vacuity guard: long-chain scenario: genesis not accepted", "{\"part\":\"long-chain\"}");
+        return;
+    }
+    let mut coin: Slip = outputs_of(&g, 0)[0].clone();
+    let mut chain: Vec<Block> = vec![g.clone()];
+    let total = 2 * gp + 2 + rng.below(3);
+    for bi in 0..total {
+        let parent = chain.last().unwrap().clone();
+        let ts = parent.timestamp + 2 * hb + rng.range(0, 40);
+        // one routed fee transaction per block, spending the change of the previous one
+        let fee = rng.range(100_000, 2_000_000);
+        let mut tx = make_tx(&[coin.clone()], &[(keys.v[sender].0, coin.amount - fee)], &keys.v[sender].1, ts);
+        let mid = 2 + (bi % 2) as usize;
+        tx.add_hop(&keys.v[sender].1, &keys.v[sender].0, &keys.v[mid].0);
+        tx.add_hop(&keys.v[mid].1, &keys.v[mid].0, &keys.v[creator].0);
+        let sig = tx.signature;
+        let with_gt = bi % 2 == 1 || bi + 1 == total;
+        let gt = if with_gt { Some((&keys.v[4].0, &keys.v[5].0, &keys.v[5].1, case as u64 * 64 + bi)) } else { None };
+        let b = match make_block_gt(&node, parent.hash, ts, vec![tx], gt).await {
+            Ok(b) => b,
+            Err(e) => {
+                ctx.summary.count("longchain.block_not_built", &e);
+                break;
+            }
+        };
+        let class = node.add_block(b.clone()).await;
+        if class != AddClass::OnChain {
+            ctx.summary.count("longchain.honest_block_rejected", &format!("gp{}:id{}:{:?}", gp, b.id, class));
+            break;
+        }
+        match b.transactions.iter().find(|t| t.signature == sig) {
+            Some(t) => coin = t.to[0].clone(),
+            None => break,
+        }
+        chain.push(b.clone());
+        if b.id > 2 * gp + 1 {
+            ctx.summary.count("longchain.honest_blocks_beyond_2gp_plus_1", "accepted");
+        }
+        if !b.has_golden_ticket || b.id <= gp {
+            continue;
+        }
+        let beyond = if b.id > 2 * gp + 1 { "beyond-2gp+1" } else { "within-2gp+1" };
+        let (outputs, _) = fee_outputs(&b, keys);
+        let gt_tx = b.transactions.iter().find(|t| t.transaction_type == TransactionType::GoldenTicket).unwrap();
+        let gt_sender: SaitoPublicKey = gt_tx.from.first().map(|x| x.public_key).unwrap_or([0; 33]);
+        let desc = format!(
+            "{{\"part\":\"long-chain\",\"genesis_period\":{},\"block_id\":{},\"chain_length\":{},\"honest_fee_tx_outputs_key_amount_kind\":{:?}}}",
+            gp, b.id, chain.len(), outputs.iter().map(|o| vec![o.0, o.1, o.2]).collect::<Vec<_>>()
+        );
+        oracle_ticket(ctx, case, &b, &parent, keys, &desc);
+        for kind in 0..FEE_TAMPER.len() {
+            let c = match tampered_clone(&b, kind, keys, &node.sk, &gt_sender) {
+                Some(c) => c,
+                None => continue,
+            };
+            let mut n2 = match replay_node(&params, &chain[..chain.len() - 1]).await {
+                Some(n) => n,
+                None => {
+                    ctx.summary.oracle_failure(case, "vacuity guard: an accepted long chain could not be replayed on a fresh node", &desc);
+                    return;
+                }
+            };
+            let cl = n2.add_block(c.clone()).await;
+            let (couts, cn) = fee_outputs(&c, keys);
+            ctx.summary.count("longchain.tampered", &format!("{}:{:?}", beyond, cl));
+            if cl == AddClass::OnChain {
+                ctx.summary.oracle_failure(
+                    case,
+                    &format!(
+                        "block {} (chain longer than 2*genesis_period+1 = {}: {}) with a tampered, re-signed fee transaction ({}) was accepted: {} fee transaction(s) paying (key, amount, kind) {:?} instead of {:?}",
+                        c.id, 2 * gp + 1, b.id > 2 * gp + 1, FEE_TAMPER[kind], cn, couts, outputs
+                    ),
+                    &desc,
+                );
+            }
+        }
+    }
+}
+
 async fn part3(ctx: &mut Ctx, rng: &mut Rng) {
     let thorough = ctx.args.tier == "thorough";
     let keys = Keys::new(8);
@@ -1881,7 +2001,7 @@ async fn part3(ctx: &mut Ctx, rng: &mut Rng) {
                     if hb == 5000 && hops == 3 && !thorough {
                         continue;
                     }
-                    scenarios.push(Scenario { hb, dt, misordered: false, hops, n_tx: 1, variant, path_defect: 0, with_gt: false, pre_dt: None });
+                    scenarios.push(Scenario { hb, dt, misordered: false, hops, n_tx: 1, variant, path_defect: 0, with_gt: false, pre_dt: None, carrier: 0 });
                 }
             }
         }
@@ -1905,25 +2025,35 @@ async fn part3(ctx: &mut Ctx, rng: &mut Rng) {
             }
             if is_up { up += 1 } else { down += 1 }
             for &variant in &[-1i64, 0] {
-                scenarios.push(Scenario { hb, dt, misordered: false, hops: 1 + (dt % 2) as usize, n_tx: 1, variant, path_defect: 0, with_gt: false, pre_dt: None });
+                scenarios.push(Scenario { hb, dt, misordered: false, hops: 1 + (dt % 2) as usize, n_tx: 1, variant, path_defect: 0, with_gt: false, pre_dt: None, carrier: 0 });
             }
         }
     }
     // the same with a parent whose burn fee is not the default (an extra block in between)
     for &(pd, dt) in &[(50u64, 7u64), (50, 33), (120, 13), (180, 101), (30, 3), (75, 57), (150, 19), (199, 171)] {
         for &variant in &[-1i64, 0] {
-            scenarios.push(Scenario { hb: 100, dt, misordered: false, hops: 1, n_tx: 1, variant, path_defect: 0, with_gt: false, pre_dt: Some(pd) });
+            scenarios.push(Scenario { hb: 100, dt, misordered: false, hops: 1, n_tx: 1, variant, path_defect: 0, with_gt: false, pre_dt: Some(pd), carrier: 0 });
+        }
+    }
+    // the routing work comes from a NON-Normal fee-paying transaction (the golden-ticket transaction
+    // itself, a BlockStake transaction): valid path = control (accepted), forged hop / self-hop rejected
+    for &carrier in &[1u8, 2] {
+        for &defect in &[0u8, 1, 2] {
+            for &(dt, hops) in &[(50u64, 1usize), (100, 2), (150, 1), (10, 2)] {
+                scenarios.push(Scenario { hb: 100, dt, misordered: false, hops, n_tx: 1, variant: 0, path_defect: defect, with_gt: false, pre_dt: None, carrier });
+                scenarios.push(Scenario { hb: 100, dt, misordered: false, hops, n_tx: 2, variant: 7, path_defect: defect, with_gt: carrier == 2, pre_dt: None, carrier });
+            }
         }
     }
     // equal / misordered timestamps: the sentinel
-    scenarios.push(Scenario { hb: 100, dt: 0, misordered: false, hops: 1, n_tx: 1, variant: 0, path_defect: 0, with_gt: false, pre_dt: None });
-    scenarios.push(Scenario { hb: 100, dt: 0, misordered: true, hops: 1, n_tx: 1, variant: 0, path_defect: 0, with_gt: false, pre_dt: None });
+    scenarios.push(Scenario { hb: 100, dt: 0, misordered: false, hops: 1, n_tx: 1, variant: 0, path_defect: 0, with_gt: false, pre_dt: None, carrier: 0 });
+    scenarios.push(Scenario { hb: 100, dt: 0, misordered: true, hops: 1, n_tx: 1, variant: 0, path_defect: 0, with_gt: false, pre_dt: None, carrier: 0 });
     // path defects: forged / self-hop count as work on this tree; misdirected / broken do not
     for &defect in &[1u8, 2, 3, 4] {
         for &dt in &[10u64, 100, 150] {
             for &hops in &[1usize, 2] {
-                scenarios.push(Scenario { hb: 100, dt, misordered: false, hops, n_tx: 1, variant: 0, path_defect: defect, with_gt: false, pre_dt: None });
-                scenarios.push(Scenario { hb: 100, dt, misordered: false, hops, n_tx: 2, variant: 5, path_defect: defect, with_gt: false, pre_dt: None });
+                scenarios.push(Scenario { hb: 100, dt, misordered: false, hops, n_tx: 1, variant: 0, path_defect: defect, with_gt: false, pre_dt: None, carrier: 0 });
+                scenarios.push(Scenario { hb: 100, dt, misordered: false, hops, n_tx: 2, variant: 5, path_defect: defect, with_gt: false, pre_dt: None, carrier: 0 });
             }
         }
     }
@@ -1941,6 +2071,7 @@ async fn part3(ctx: &mut Ctx, rng: &mut Rng) {
             path_defect: if rng.chance(1, 8) { rng.range(1, 4) as u8 } else { 0 },
             with_gt: rng.chance(1, 3),
             pre_dt: if rng.chance(1, 4) { Some(rng.range(20, 199)) } else { None },
+            carrier: 0,
         });
     }
     for (i, sc) in scenarios.iter().enumerate() {
@@ -1955,6 +2086,10 @@ async fn part3(ctx: &mut Ctx, rng: &mut Rng) {
     require_min(ctx, offset, "gate.requirement_fraction", "<.5", 30);
     require_min(ctx, offset, "gate.variant", "-1", 40);
     require_min(ctx, offset, "gate.variant", "+0", 40);
+    for c in ["GoldenTicket", "BlockStake"] {
+        require_min(ctx, offset, "gate.non_normal_carrier", &format!("{}:valid-path:OnChain", c), 6);
+        require_min(ctx, offset, "gate.non_normal_carrier", &format!("{}:invalid-path:Invalid", c), 12);
+    }
     let header = format!(
         "From Saito Require Import Base BurnFee Routing.\nDefinition DBG : bool := {}.\nDefinition mk_tx (t : option N * N * list (N * N * bool)) : rtx :=\n  let '(f0, fees, p) := t in mkRtx f0 fees (map (fun h => mkHop (fst (fst h)) (snd (fst h)) (snd h)) p).\nDefinition check (c : (N * list (option N * N * list (N * N * bool)) * N * N * N * N) * (N * bool * bool)) : bool :=\n  let '((creator, txs, bf, ts, prev, hb), (tw, accepted, strict)) := c in\n  (block_total_work creator (map mk_tx txs) =? tw)\n  && match gate_passes DBG tw bf ts prev hb with\n     | Ok g => if strict then Bool.eqb g accepted else implb accepted g\n     | _ => negb accepted\n     end.",
         gal::boolean(ctx.dbg)
@@ -2056,6 +2191,17 @@ Definition check (c : ((N * option PREV) * list (N * N * N)) * ((N * N * N * N) 
         offset,
     );
     ctx.files.extend(files);
+
+    // ---------------- long chains: oracle only (cases are attached to the first payout case)
+    let reps = if thorough { 5 } else { 1 };
+    for _ in 0..reps {
+        for gp in [3u64, 4, 5] {
+            run_long_chain_scenario(ctx, rng, &keys, gp, offset).await;
+        }
+    }
+    require_min(ctx, offset, "longchain.honest_blocks_beyond_2gp_plus_1", "accepted", 6);
+    require_min(ctx, offset, "longchain.tampered", "beyond-2gp+1:Invalid", 15);
+    require_min(ctx, offset, "longchain.tampered", "within-2gp+1:Invalid", 5);
 }
 
 // ------------------------------------------------------------------ part 4: whose golden ticket is it
